@@ -110,8 +110,10 @@ def mk_img(c, dtype, rank, slope=1.0, inter=0.0):
     for s in shape:
         c.assume(s >= 1)
     A = sym_matrix(c, "A")
-    img = types.SimpleNamespace(header=types.SimpleNamespace(get_data_shape=lambda: shape), dataobj=_Proxy(dtype, rank, slope, inter),
-                                affine=array_from_list(A, np.float64))
+    # get_data_dtype (image and header): the ON-DISK type, whatever the header scaling (assumed contract, nibabel docs)
+    img = types.SimpleNamespace(header=types.SimpleNamespace(get_data_shape=lambda: shape, get_data_dtype=lambda: np.dtype(dtype)),
+                                dataobj=_Proxy(dtype, rank, slope, inter), get_data_dtype=lambda: np.dtype(dtype),
+                                shape=shape, affine=array_from_list(A, np.float64))
     return img, shape, A
 
 
